@@ -32,7 +32,7 @@ func genC02(r *simrt.RNG, tier string, variant int) Plan {
 			kind = "custom"
 		}
 		p.Clients = append(p.Clients, ClientPlan{Name: string(rune('A' + ci)), Kind: kind, Server: 0,
-			PingNs: Pick(r, []int64{0, 0, -1, int64(20e6)})})
+			PingNs: Pick(r, []int64{0, 0, -1, int64(20e6)}), KeepAlive: kind == "http" && r.Bool(0.5)})
 		n := 2 + r.Intn(11)
 		if variant >= 0 {
 			n = 2 + variant%4 // permutation sweep: small N
